@@ -411,6 +411,7 @@ type FuncContract struct {
 	Decreases *Clause
 	AllocBound *Clause // allocations may also be as large as this expression (data the caller handed in)
 	UnboundedAlloc bool // (specs) the function allocates memory proportional to its input (io.ReadAll, os.ReadFile, ...)
+	Constructor bool // runs in the single-threaded configuration phase (Provision): may initialise immutable fields
 	NoGlobals bool   // the function must not read mutable package-level variables (state shared between instances)
 	LastCall  string // higher-order summary: the function's outcome is that of the last call of this func-typed parameter
 	Notes     []string
@@ -440,6 +441,7 @@ type TypeContract struct {
 	ID         string
 	Invariants []*Clause
 	Guarded    map[string]string // field -> lock
+	Owned      map[string]*OwnedField // field -> the lock that protects the object the field refers to
 	Immutable  map[string]bool
 	Src        string
 }
@@ -449,6 +451,13 @@ type GlobalInv struct {
 	Pkg    string
 	Global string
 	Clause *Clause
+}
+
+// OwnedField: the object a field refers to is part of the representation protected by Lock: methods may be called
+// on it only with the lock held (Readers: in any mode; every other method: in write mode).
+type OwnedField struct {
+	Lock    string
+	Readers map[string]bool
 }
 
 type Contracts struct {
@@ -485,7 +494,7 @@ func (cs *Contracts) ParseContractFile(path string, pkgName string, isSpec bool)
 		line int
 	}
 	var lines []lline
-	heads := []string{"func ", "type ", "spec ", "dead ", "axiom ", "lemma ", "global ", "props ", "arith ", "requires", "ensures", "trusted_ensures", "assigns", "loop ", "pure", "trusted", "trustframe", "noglobals", "unbounded_alloc", "noinline", "fresh ", "note ", "assert", "invariant ", "invariant[", "guarded_by ", "immutable", "decreases ", "ghost ", "lastcall ", "allocbound "}
+	heads := []string{"func ", "type ", "spec ", "dead ", "axiom ", "lemma ", "global ", "props ", "arith ", "requires", "ensures", "trusted_ensures", "assigns", "loop ", "pure", "trusted", "trustframe", "noglobals", "constructor", "unbounded_alloc", "noinline", "fresh ", "note ", "assert", "invariant ", "invariant[", "guarded_by ", "owns ", "immutable", "decreases ", "ghost ", "lastcall ", "allocbound "}
 	for i, raw := range strings.Split(string(data), "\n") {
 		s := strings.TrimSpace(raw)
 		if !strings.HasPrefix(s, "//@") {
@@ -654,6 +663,28 @@ func (cs *Contracts) ParseContractFile(path string, pkgName string, isSpec bool)
 					curT.Guarded[strings.TrimSpace(f)] = strings.TrimSpace(parts[0])
 				}
 			}
+		case curT != nil && strings.HasPrefix(s, "owns "):
+			// owns <lock>: <field> readers M1 M2 ...
+			parts := strings.SplitN(strings.TrimSpace(s[5:]), ":", 2)
+			if len(parts) != 2 {
+				cs.Errors = append(cs.Errors, src+": bad owns clause")
+				continue
+			}
+			f := strings.Fields(parts[1])
+			if len(f) == 0 {
+				cs.Errors = append(cs.Errors, src+": bad owns clause")
+				continue
+			}
+			of := &OwnedField{Lock: strings.TrimSpace(parts[0]), Readers: map[string]bool{}}
+			for _, r := range f[1:] {
+				if r != "readers" {
+					of.Readers[strings.Trim(r, ",")] = true
+				}
+			}
+			if curT.Owned == nil {
+				curT.Owned = map[string]*OwnedField{}
+			}
+			curT.Owned[f[0]] = of
 		case curT != nil && strings.HasPrefix(s, "immutable"):
 			rest := strings.TrimPrefix(strings.TrimSpace(s[9:]), ":")
 			for _, f := range strings.Split(rest, ",") {
@@ -672,6 +703,8 @@ func (cs *Contracts) ParseContractFile(path string, pkgName string, isSpec bool)
 			curF.Pure = true
 		case s == "trusted":
 			curF.Trusted = true
+		case s == "constructor":
+			curF.Constructor = true
 		case s == "unbounded_alloc":
 			curF.UnboundedAlloc = true
 		case s == "noglobals":
